@@ -1,10 +1,10 @@
 package main
 
 import (
-	"go/token"
-	"strings"
 	"fmt"
+	"go/token"
 	"go/types"
+	"strings"
 
 	"golang.org/x/tools/go/ssa"
 )
@@ -25,6 +25,8 @@ func runC17(c *Ctx) {
 	c.rule("R17.1", "every blocking socket read is preceded by renewing the read deadline")
 	c.rule("R17.8", "the deadline renewal really sets the deadline whenever a timeout is configured")
 	c.renewalUnconditional("R17.8")
+	c.ruleOpt("R17.9", "a write deadline put on the socket is lifted again before the writer returns (gorilla keeps it for every later frame)")
+	c.stickyWriteDeadline("R17.9")
 	c.rule("R17.2", "pong and ping handlers signal peer activity with a non-blocking send; the activity arm renews the read deadline")
 	c.rule("R17.3", "the ping sender loops on the configured interval, writes pings under the write lock and honours its stop signal")
 	c.rule("R17.4", "keepalive is installed in the loop prologue and after every socket swap")
@@ -353,5 +355,73 @@ func (c *Ctx) renewalUnconditional(rule string) {
 		c.bad(rule, construct, c.ipos(s.found), "the renewal function can return without setting the read deadline although a timeout is configured (e.g. because a deadline was set a moment ago on this connection object): after a reconnect the new socket has no read deadline, and a peer that goes silent before its first message is never noticed")
 	} else {
 		c.ok(rule, construct, p.pos(fn.Pos()), "SetReadDeadline on every path except 'no timeout'")
+	}
+}
+
+// stickyWriteDeadline: R17.9. (*websocket.Conn).SetWriteDeadline stores the deadline on the
+// connection; it applies to every later frame, not only to the next write. A deadline set for a ping
+// ("a ping that cannot be written within two intervals is useless") therefore also bounds a long
+// data message written afterwards: once that write lasts longer than the stale deadline allows it
+// fails mid-message, gorilla makes the write error permanent, and the link is write-dead although
+// pings still arrive — the keepalive itself kills a healthy, merely slow, link. Every non-zero
+// deadline must be lifted (SetWriteDeadline of the zero time) on every path before the function
+// that set it releases the write lock or returns.
+func (c *Ctx) stickyWriteDeadline(rule string) {
+	p := c.P
+	isSet := func(in ssa.Instruction) (*ssa.Call, bool) {
+		ci, ok := in.(*ssa.Call)
+		if !ok || calleeName(ci) != "(*"+gorilla+".Conn).SetWriteDeadline" {
+			return nil, false
+		}
+		return ci, true
+	}
+	isZeroTime := func(v ssa.Value) bool {
+		switch x := v.(type) {
+		case *ssa.Const:
+			return x.Value == nil
+		case *ssa.UnOp:
+			if al, ok := x.X.(*ssa.Alloc); ok && x.Op == token.MUL {
+				for _, ref := range *al.Referrers() {
+					if st, isSt := ref.(*ssa.Store); isSt && st.Addr == al {
+						return false
+					}
+					if _, isCall := ref.(ssa.CallInstruction); isCall {
+						return false
+					}
+				}
+				return true
+			}
+		}
+		return false
+	}
+	lift := func(in ssa.Instruction) bool {
+		ci, ok := isSet(in)
+		return ok && isZeroTime(ci.Common().Args[1])
+	}
+	n := 0
+	for _, fn := range p.Funcs {
+		if pkgOf(fn) != p.Root.Pkg {
+			continue
+		}
+		allInstrs(fn, func(in ssa.Instruction) {
+			ci, ok := isSet(in)
+			if !ok || isZeroTime(ci.Common().Args[1]) {
+				return
+			}
+			n++
+			construct := fmt.Sprintf("%s: write deadline on the socket", fname(fn))
+			letGo := func(x ssa.Instruction) bool {
+				if isReturn(x) {
+					return true
+				}
+				ci, ok := x.(*ssa.Call)
+				return ok && calleeName(ci) == "(*sync.Mutex).Unlock"
+			}
+			ret := reachFrom(in, letGo, lift)
+			c.check(ret == nil, rule, construct, c.ipos(in), "lifted before the writer lets go of the socket (unlock or return)", "a write deadline is left on the connection: gorilla applies it to every later frame, so a data message whose transmission outlasts it (a large request on a slow link) fails mid-write, the write error is permanent and the link is write-dead while pings still arrive — a healthy connection is lost to the keepalive's own deadline")
+		})
+	}
+	if n == 0 {
+		c.ok(rule, "no instance", "-", "the library sets no write deadline")
 	}
 }
